@@ -22,6 +22,8 @@ func checkC20(c *Check, a *Anchors) {
 	nodeIdentityImmutable(c, a)
 	fieldNotClobberedOnError(c, a, "field-not-clobbered-on-error") // the cache fallback re-uses the node whose fetch just failed
 	c20TrustErrorPropagates(c, a)
+	c20ReadErrorNotMasked(c, a)
+	c20CacheKeyFromFullLocation(c, a)
 }
 
 func c20DecisionTable(c *Check, a *Anchors) {
@@ -441,4 +443,106 @@ func c20TrustErrorPropagates(c *Check, a *Anchors) {
 		})
 	}
 	c.Floor("trust-error-propagates", n, 3)
+}
+
+// c20ReadErrorNotMasked: what Reader.Read reports is what the invocation ends with.
+func c20ReadErrorNotMasked(c *Check, a *Anchors) {
+	c.Rule("read-error-not-masked", "the function of package task that calls Reader.Read returns Read's own error on its error edge; it replaces it by another error (the network-timeout class) only on the true edge of errors.Is applied to THAT error: a replacement decided by anything else (the state of the context, a flag) turns a declined approval (*TaskfileNotTrustedError, exit 104) that arrives late into a network problem")
+	n := 0
+	for _, fb := range c.P.BodiesIn(PkgTask) {
+		info := fb.Info()
+		has := false
+		for _, call := range callsIn(fb, false) {
+			if isFunc(callee(info, call), PkgTaskfile, "Reader", "Read") {
+				has = true
+			}
+		}
+		if !has {
+			continue
+		}
+		c.Fn(fb.Root())
+		f := NewFlow(c.P, fb, func(call *ast.CallExpr, obj types.Object) string {
+			if isFunc(obj, PkgTaskfile, "Reader", "Read") {
+				return "read"
+			}
+			return ""
+		})
+		f.Run()
+		for i, r := range f.Returns {
+			st := f.At[r]
+			res := errResult(r)
+			if res == nil || !st.Has("nonnil:read") {
+				continue
+			}
+			n++
+			ok := false
+			if v := varOf(info, res); v != nil && st.Has(defPrefix(v)+"read") {
+				ok = true
+			}
+			if !ok {
+				for k := range st {
+					if strings.HasPrefix(k, "true:Is(read,") {
+						ok = true // replaced on the strength of a test of Read's error itself
+					}
+				}
+			}
+			c.Decide(ok, "read-error-not-masked", fmt.Sprintf("return#%d@%s", i+1, fnDisplay(fb.Root())), r.Pos(), "Read's error, or a replacement decided by errors.Is on it",
+				"on the error edge of Reader.Read this return yields `"+exprStrOrNone(res)+"` without a test of Read's error: whatever Read reported — a declined trust prompt included — is replaced; must-facts: "+st.String())
+		}
+	}
+	c.Floor("read-error-not-masked", n, 1)
+}
+
+// c20CacheKeyFromFullLocation: the cache key (and with it the stored approval) distinguishes every two locations.
+func c20CacheKeyFromFullLocation(c *Check, a *Anchors) {
+	c.Rule("cache-key-from-full-location", "in every CacheKey method of the remote node types the digest that makes the key unique is computed from the node's complete Location() — the argument of the package's checksum function is (a conversion of) the Location() call itself, not a cut, split, trimmed or otherwise shortened copy: two locations that differ only in the dropped part (a query string, a ref) would share one cached file and one approval, so the copy served from the cache is another file's")
+	n := 0
+	for _, fb := range c.P.BodiesIn(PkgTaskfile) {
+		if fb.Decl == nil || fb.Decl.Name.Name != "CacheKey" || fb.Decl.Recv == nil {
+			continue
+		}
+		info := fb.Info()
+		for _, call := range callsIn(fb, true) {
+			fn, ok := callee(info, call).(*types.Func)
+			if !ok || fn.Pkg() == nil || fn.Pkg().Path() != PkgTaskfile || fn.Name() != "checksum" || len(call.Args) != 1 {
+				continue
+			}
+			n++
+			c.Fn(fb)
+			// strip conversions
+			e := ast.Unparen(call.Args[0])
+			for {
+				conv, ok := e.(*ast.CallExpr)
+				if !ok || len(conv.Args) != 1 {
+					break
+				}
+				if tv, ok := info.Types[conv.Fun]; ok && tv.IsType() {
+					e = ast.Unparen(conv.Args[0])
+					continue
+				}
+				break
+			}
+			isLoc := func(x ast.Expr) bool {
+				lc, ok := ast.Unparen(x).(*ast.CallExpr)
+				if !ok {
+					return false
+				}
+				lf, ok := callee(info, lc).(*types.Func)
+				return ok && lf.Name() == "Location" && len(lc.Args) == 0
+			}
+			full := isLoc(e)
+			if v := varOf(info, e); v != nil && !v.IsField() {
+				defs := defsOf(info, fb.Body, v)
+				full = len(defs) > 0
+				for _, d := range defs {
+					if !isLoc(d) {
+						full = false
+					}
+				}
+			}
+			c.Decide(full, "cache-key-from-full-location", "digest-input@"+fnDisplay(fb), call.Pos(), "the digest is taken over Location()",
+				"the digest of "+fnDisplay(fb)+" is taken over `"+exprStr(call.Args[0])+"`, which is not the node's complete Location(): locations that differ only in what was removed get the same cache key, so one's cached (and approved) copy is served for the other")
+		}
+	}
+	c.Floor("cache-key-from-full-location", n, 2)
 }
